@@ -5,6 +5,7 @@ export GOFLAGS=-mod=mod GOPROXY=off GOSUMDB=off GOTOOLCHAIN=local
 cd /verif/sim
 mkdir -p /verif/bin /verif/evidence /verif/replays
 go1.26.8 build -o /verif/bin/mhubsim ./cmd/mhubsim
+/verif/sim/conn/gen_relay.sh
 go1.26.8 test -c -vet=off -o /verif/bin/c20.test ./conn
 # harness lint: the simulator itself must never range over a map to make a decision
 if grep -n "\.Range(" -r /verif/sim --include=*.go; then echo "sync.Map.Range in harness" >&2; exit 1; fi
